@@ -76,6 +76,20 @@ func (c *Ctx) Merge(o *Ctx, label string) {
 	c.Configs = append(c.Configs, label)
 }
 
+// ResetFor clears everything a property's run leaves behind, keeping the
+// loaded program and its caches (call graphs, call sites).
+func (c *Ctx) ResetFor(property string) {
+	c.Property = property
+	c.Obls = nil
+	c.Notes = nil
+	c.RuleDocs = map[string]string{}
+	c.Floors = map[string]int{}
+	c.witnessHits = nil
+	c.Known = nil
+	c.Configs = nil
+	c.Start = time.Now()
+}
+
 // Doc registers the one-line description of a rule and its instance floor.
 func (c *Ctx) Doc(rule, doc string, floor int) {
 	c.RuleDocs[rule] = doc
